@@ -224,6 +224,43 @@ func (env *Env) call(e *ECall) TV {
 		T, _ := fc.resolveType(ts.Val, env.tpkg)
 		k := P.Box(T)
 		return TV{fmt.Sprintf("(= (tagof %s) tag_%s)", x.T, k), "Bool", B}
+	case "selectchan", "selectedcase":
+		// the function's only select statement: selectchan(i) is the channel of its i-th case, selectedcase() the index of
+		// the case that fired
+		if env.fr == nil {
+			return env.fail("%s is only available in the contract of the function that contains the select", e.Fun)
+		}
+		var sel *ssa.Select
+		for _, b := range env.fr.fn.Blocks {
+			for _, in := range b.Instrs {
+				if s, ok := in.(*ssa.Select); ok {
+					if sel != nil {
+						return env.fail("%s: the function has more than one select", e.Fun)
+					}
+					sel = s
+				}
+			}
+		}
+		if sel == nil {
+			return env.fail("%s: the function has no select", e.Fun)
+		}
+		if e.Fun == "selectedcase" {
+			n, ok := env.fr.vals[sel]
+			if !ok {
+				return env.fail("selectedcase: the select has not been reached")
+			}
+			return TV{n + "_r0", "Int", types.Typ[types.Int]}
+		}
+		ie, ok := e.Args[0].(*EInt)
+		if !ok {
+			return env.fail("selectchan needs a literal case index")
+		}
+		var idx int
+		fmt.Sscanf(ie.Val, "%d", &idx)
+		if idx < 0 || idx >= len(sel.States) {
+			return env.fail("selectchan: the select has %d cases", len(sel.States))
+		}
+		return TV{env.fr.val(sel.States[idx].Chan), "Int", sel.States[idx].Chan.Type()}
 	case "param":
 		// param("x"): the value parameter x had on entry (loop invariants see the current value of a reassigned parameter)
 		ns, ok := env.strLit(e.Args[0])
